@@ -10,7 +10,9 @@ nix_manipulator). Anything outside the fragment is refused with `OutsideFragment
                   `assert comments condition comments ; comments body` (assert_expression),
                   `expression comments . a₁.a₂.….aₙ` (select_expression without `or` default; every
                   segment an identifier or a "string" without `${…}`; whitespace only between `.` and
-                  the attrpath, nothing at all between the segments and dots of the attrpath)
+                  the attrpath, nothing at all between the segments and dots of the attrpath),
+                  `name comments : comments body` (function_expression whose argument is ONE identifier;
+                  `{ a, b }: …` and `x@{ … }: …` are refused as "function with formals")
     set members : bindings whose attrpath is ONE identifier or "string" (no inherit, no `${…}` name),
                   comments anywhere between the tokens of a binding, none between `rec` and `{`
 
@@ -70,6 +72,7 @@ class _Conv:
     #      | ("K", isWith, c1, g1, head, c2, g2, c3, g3, body)
     #      | ("D", cst, c1, g1, gd, [segment text])                gc : [(gap, comment text)]
     #      | ("O", cst, c1, g1, gd, [segment text], c2, g2, g3, cst)      select with `or` default
+    #      | ("F1", name, c1, g1, c2, g2, body)                    name c1 g1 `:` c2 g2 body
     # item : ("c", gap, text) | ("e", gap, cst) | ("b", gap, name, c1, g1, c2, g2, cst, c3, g3)
     def expr(self, n):
         k = LEAF_KINDS.get(n.type)
@@ -160,7 +163,43 @@ class _Conv:
             return self.keyword(n)
         if n.type == "select_expression":
             return self.select(n)
+        if n.type == "function_expression":
+            return self.lam(n)
         raise OutsideFragment(n.type)
+
+    def lam(self, n):
+        """name c1 g1 `:` c2 g2 body — a function whose argument is one identifier"""
+        shape = OutsideFragment("function shape")
+        ch = n.children
+        name, body = n.child_by_field_name("universal"), n.child_by_field_name("body")
+        if n.child_by_field_name("formals") is not None or any(c.type in ("formals", "@") for c in ch):
+            raise OutsideFragment("function with formals")
+        if (name is None or body is None or len(ch) < 3 or ch[0].id != name.id or ch[-1].id != body.id
+                or name.type != "identifier" or name.child_count != 0):
+            raise shape
+        runs = [[], []]  # comments before `:`, before the body
+        gaps = [None, None]
+        b = None
+        stage, pos, prev = 0, name.end_byte, name
+        for c in ch[1:]:
+            g = self.gap(pos, c.start_byte)
+            self.rows(prev, c, g)
+            if c.type == "comment":
+                if stage > 1:
+                    raise shape
+                runs[stage].append((g, self.t(c.start_byte, c.end_byte)))
+            elif stage == 0 and c.type == ":":
+                if self.t(c.start_byte, c.end_byte) != ":":
+                    raise shape
+                gaps[0], stage = g, 1
+            elif stage == 1 and c.id == body.id:
+                gaps[1], b, stage = g, self.expr(c), 2
+            else:
+                raise shape
+            pos, prev = c.end_byte, c
+        if stage != 2:
+            raise shape
+        return ("F1", self.t(name.start_byte, name.end_byte), runs[0], gaps[0], runs[1], gaps[1], b)
 
     def select(self, n):
         """expression c1 g1 `.` gd a₁ `.` a₂ … `.` aₙ [c2 g2 `or` g3 default]"""
@@ -367,6 +406,9 @@ def flatten(x) -> str:
     if k == "O":
         return (flatten(x[1]) + "".join(g + c for g, c in x[2]) + x[3] + "." + x[4] + ".".join(x[5])
                 + "".join(g + c for g, c in x[6]) + x[7] + "or" + x[8] + flatten(x[9]))
+    if k == "F1":
+        gc = lambda r: "".join(g + c for g, c in r)  # noqa: E731
+        return x[1] + gc(x[2]) + x[3] + ":" + gc(x[4]) + x[5] + flatten(x[6])
     if k == "c":
         return x[1] + x[2]
     if k == "e":
@@ -400,6 +442,9 @@ def sexp(x):
     if k == "O":
         return ["O", sexp(x[1]), [[hx(g), hx(c)] for g, c in x[2]], hx(x[3]), hx(x[4]), [hx(a) for a in x[5]],
                 [[hx(g), hx(c)] for g, c in x[6]], hx(x[7]), hx(x[8]), sexp(x[9])]
+    if k == "F1":
+        gc = lambda r: [[hx(g), hx(c)] for g, c in r]  # noqa: E731
+        return ["F1", hx(x[1]), gc(x[2]), hx(x[3]), gc(x[4]), hx(x[5]), sexp(x[6])]
     if k == "c":
         return ["c", hx(x[1]), hx(x[2])]
     if k == "e":
@@ -431,6 +476,8 @@ def code_tokens(x) -> list[str]:
         return code_tokens(x[1]) + [t for a in x[5] for t in (".", a)]
     if k == "O":
         return code_tokens(x[1]) + [t for a in x[5] for t in (".", a)] + ["or"] + code_tokens(x[9])
+    if k == "F1":
+        return [x[1], ":"] + code_tokens(x[6])
     if k == "c":
         return []
     if k == "e":
